@@ -9,12 +9,18 @@
 //!  * `validate_small`  scheme x degree x coefficient lists over V (x plain modulus x security x expand x special inside a case)
 //!  * `validate_std`    standard degrees 1024..32768 with `bfv_default` lists (as is / one bit too large / neighbouring degree)
 //!  * `validate_long`   lists of 63 / 64 / 65 distinct primes
+//!  * `create_many`     `CoeffModulus::create` with 5..30 primes of ONE size and mixed lists of 27..30 sizes, every N = 2..2^15
+//!  * `chain_many`      chains of 1..30 primes at N = 4..512 (60-bit / smallest / mixed-size primes): products cross 1, 2, 8, 9, 16, .. words
+//!  * `chain_big`       chains of 1..30 primes at N = 1024..32768 (1, 2, 9 primes at 65536, 131072): SecurityLevel::None and the real security table (largest Tc128 sizes)
 //!  * `ids`             pairwise distinct parameter identifiers over the whole universe (custom section: sort + adjacent scan)
 //!
 //! Oracle of the validate sections: `ref_validate` (the statement's preconditions in ladder order, BigU / u128 arithmetic only),
 //! `ref_chain` (which prefixes form the chain), `check_level` (constants against their definitions), `observe_ctx` (list structure,
 //! ids of every level against an independently built parameter object). Every accepted object is built twice from independent
 //! builder objects under different scripted number-theory draws (hook H3) and the two observations must agree.
+//! `chain_many` / `chain_big` run the same oracle with `check_level_ext` switched on: RNS tool bases (q, B, Bsk, Bsk + m_tilde,
+//! {t, gamma}: moduli, products, punctured products, inverses), the tool's scalar constants, the tables of Bsk and two entries of
+//! every table's root-power arrays, all recomputed with BigU; ids of a chain's levels pairwise distinct.
 
 use crate::engine::*;
 use crate::refmodel::bigu::*;
@@ -36,8 +42,13 @@ pub fn describe(rep: &Report) {
          objects, different scripted number-theory draws) and compared with an independent predicate / BigU definitions. \
          non-trivial = at least one inner item was accepted (chain, constants, ids compared). ids: every (scheme, degree, list, plain \
          modulus) of the universe through the builder, sort by id, adjacent scan. create: case = (N, multiset of bit sizes). \
-         is_prime: case = block of consecutive integers. nt_draws: case = one small modulus, loops over ALL draw values.",
+         is_prime: case = block of consecutive integers. nt_draws: case = one small modulus, loops over ALL draw values. \
+         chain_many / chain_big: case = (scheme, degree, explicit list of 1..30 primes) and loops over its plain moduli, security levels and the \
+         four flag combinations like validate_*; additionally every accepted level's RNS tool and table entries are compared with BigU \
+         definitions. create_many: case = (N, list of sizes), called twice under different draws.",
     );
+    rep.assume("auxiliary RNS bases (chain_many / chain_big): the property fixes their role, not their values; judged: B has k or k+1 moduli with 2^32 * t * q < prod(B) * m_sk, Bsk = B + m_sk, Bsk + m_tilde with m_tilde = 2^32, {t, gamma}; B, m_sk, gamma are distinct 61-bit primes = 1 mod 2N coprime to q and t; every product / punctured product / inverse / table is then judged against these moduli, and two independent builds must choose the same moduli");
+    rep.assume("chain_big runs at most 5 GB of expanded chains at a time (a throttle on memory only; the cases and their results do not depend on it)");
     rep.assume("security table re-typed from the HomomorphicEncryption.org standard (ternary secret, classical): 128: 27/54/109/218/438/881, 192: 19/37/75/152/305/611, 256: 14/29/58/118/237/476 for N = 1024..32768; other degrees have no standard entry (limit 0)");
     rep.assume("reference primality: deterministic Miller-Rabin with 12 bases (valid below 2^64) and a sieve of Eratosthenes below the is_prime bound");
     rep.assume("number-theory draws are scripted pseudo-random streams (hook H3); Miller-Rabin's error on composites under ADVERSARIAL draws is enumerated in nt_draws and only the sound direction (a witness among the bases => rejected; prime => accepted) is judged");
@@ -81,6 +92,8 @@ thread_local! {
     static ISP: RefCell<HashMap<u64, bool>> = RefCell::new(HashMap::new());
     /// set when `modulus()` had to replace the installed draw script
     static CLOBBER: std::cell::Cell<bool> = const { std::cell::Cell::new(false) };
+    /// set by the production-size sections (`chain_many`, `chain_big`): every accepted level is also given to `check_level_ext`
+    static EXT: std::cell::Cell<bool> = const { std::cell::Cell::new(false) };
 }
 
 /// memoized deterministic Miller-Rabin (the reference asks the same few moduli again and again)
@@ -493,6 +506,180 @@ fn check_level(lp: &P, sec: u16, cd: &ContextData) -> Result<(u64, Vec<u64>, u8)
     Ok((fp, roots, qb))
 }
 
+fn exp_op(x: u64, q: u64) -> (u64, u64) {
+    (x, (((x as u128) << 64) / q as u128) as u64)
+}
+
+fn op_pair(o: &hu::MultiplyU64ModOperand) -> (u64, u64) {
+    (o.operand, o.quotient)
+}
+
+/// One RNS base of the level's RNS tool against its definition: the moduli, their product, the punctured products and the
+/// inverses of the punctured products modulo the base elements (all recomputed with BigU).
+fn check_rnsbase(sch: &str, what: &str, b: &hu::RNSBase, exp: &[u64], ctx: &dyn Fn() -> String) -> Result<(), Viol> {
+    macro_rules! want {
+        ($name:expr, $obs:expr, $exp:expr) => {{
+            let (o, e) = (&$obs, &$exp);
+            if o != e {
+                return Err(viol(format!("const:{}:rns.{}.{}:wrong", sch, what, $name), format!("{}.{} = {:?} for {}", what, $name, e, ctx()), format!("{:?}", o)));
+            }
+        }};
+    }
+    let n = exp.len();
+    let vals: Vec<u64> = b.base().iter().map(|m| m.value()).collect();
+    want!("base", vals, exp.to_vec());
+    want!("len", b.len(), n);
+    want!("base_prod", b.base_prod().to_vec(), BigU::product(exp).limbs(n));
+    want!("punctured_prod.len", b.punctured_prod().len(), n);
+    want!("inv_punctured_prod_mod_base.len", b.inv_punctured_prod_mod_base().len(), n);
+    for i in 0..n {
+        let rest: Vec<u64> = exp.iter().enumerate().filter(|(j, _)| *j != i).map(|(_, &x)| x).collect();
+        let pp = BigU::product(&rest);
+        want!("punctured_prod", b.punctured_prod()[i].clone(), pp.limbs(n));
+        let inv = inv_mod_u64(pp.rem_u64(exp[i]), exp[i]).ok_or_else(|| viol(format!("const:{sch}:rns.{what}.base:not-coprime"), format!("pairwise coprime moduli in {what} for {}", ctx()), format!("{exp:?}")))?;
+        want!("inv_punctured_prod_mod_base", op_pair(&b.inv_punctured_prod_mod_base()[i]), exp_op(inv, exp[i]));
+    }
+    Ok(())
+}
+
+/// Two entries of a table's root-power arrays that tie the arrays to (root, modulus): the first non-trivial forward entry is
+/// root^(N/2) (index 1 = bit-reversed N/2), the first non-trivial inverse entry is root^-1; entry 0 of both is 1. The complete
+/// tables are C09's subject.
+fn check_table_entries(sch: &str, what: &str, tb: &hu::NTTTables, n: usize, q: u64, ctx: &dyn Fn() -> String) -> Result<(), Viol> {
+    let r = tb.root();
+    let (rp, irp) = (tb.get_root_powers(), tb.get_inv_root_powers());
+    if rp.len() != n || irp.len() != n {
+        return Err(viol(format!("const:{sch}:{what}.root_powers.len:wrong"), format!("{n} root powers and {n} inverse root powers for {}", ctx()), format!("{} / {}", rp.len(), irp.len())));
+    }
+    let inv_r = inv_mod_u64(r % q, q).unwrap_or(0);
+    let mut exp = vec![(0usize, false, 1u64), (0, true, 1)];
+    if n >= 2 {
+        exp.push((1, false, pow_mod(r, n as u64 / 2, q)));
+        exp.push((1, true, inv_r));
+    }
+    for (i, inverse, e) in exp {
+        let o = if inverse { &irp[i] } else { &rp[i] };
+        if op_pair(o) != exp_op(e % q, q) {
+            return Err(viol(
+                format!("const:{sch}:{what}.{}root_powers:wrong", if inverse { "inv_" } else { "" }),
+                format!("entry {i} of the {} powers of root {r} modulo {q} = {:?} for {}", if inverse { "inverse" } else { "forward" }, exp_op(e % q, q), ctx()),
+                format!("{:?}", op_pair(o)),
+            ));
+        }
+    }
+    Ok(())
+}
+
+/// Constants of an accepted level that `check_level` leaves out: the RNS tool's bases (q, B, Bsk, Bsk + m_tilde, {t, gamma}) with
+/// their products / punctured products / inverses, the tool's scalar constants, the NTT tables of the base Bsk, and two entries
+/// of every table's root-power arrays. Everything is recomputed from the level's moduli with BigU. Returns a fingerprint of
+/// what was observed (auxiliary primes included) for the comparison of independently built contexts.
+fn check_level_ext(lp: &P, cd: &ContextData) -> Result<u64, Viol> {
+    let sch = ["None", "BFV", "CKKS", "BGV"][lp.scheme as usize & 3];
+    let (k, n, t) = (lp.q.len(), lp.n, lp.t);
+    let ctx = || lp.label();
+    macro_rules! want {
+        ($name:expr, $obs:expr, $exp:expr) => {{
+            let (o, e) = (&$obs, &$exp);
+            if o != e {
+                return Err(viol(format!("const:{}:{}:wrong", sch, $name), format!("{} = {:?} for {}", $name, e, ctx()), format!("{:?}", o)));
+            }
+        }};
+    }
+    // tables of the coefficient moduli / the plain modulus: tied to their modulus
+    for (i, tb) in cd.small_ntt_tables().iter().enumerate() {
+        check_table_entries(sch, "ntt", tb, n, lp.q[i], &ctx)?;
+    }
+    if lp.scheme != 2 && cd.qualifiers().using_batching {
+        check_table_entries(sch, "plain_ntt", cd.plain_ntt_tables(), n, t, &ctx)?;
+    }
+    // (an accepted level always has a tool; a missing one panics and is reported by the caller as observe:panic)
+    let tool: &hu::RNSTool = cd.verif_rns_tool();
+    let total = BigU::product(&lp.q);
+    // --- the bases
+    check_rnsbase(sch, "base_q", tool.base_q(), &lp.q, &ctx)?;
+    let bsk: Vec<u64> = tool.base_Bsk().base().iter().map(|m| m.value()).collect();
+    let b: Vec<u64> = tool.base_B().base().iter().map(|m| m.value()).collect();
+    if b.len() != k && b.len() != k + 1 {
+        return Err(viol(format!("const:{sch}:rns.base_B.len:wrong"), format!("{k} or {} auxiliary moduli for {}", k + 1, ctx()), format!("{}", b.len())));
+    }
+    want!("rns.base_Bsk.len", bsk.len(), b.len() + 1);
+    let m_sk = *bsk.last().unwrap();
+    want!("rns.base_Bsk(= B + m_sk)", bsk[..b.len()].to_vec(), b);
+    let two_n = 2 * n as u64;
+    let gamma = match tool.base_t_gamma() {
+        Some(tg) => {
+            if lp.scheme == 2 {
+                return Err(viol(format!("const:{sch}:rns.base_t_gamma:present"), format!("no base {{t, gamma}} without a plain modulus, {}", ctx()), "Some"));
+            }
+            let v: Vec<u64> = tg.base().iter().map(|m| m.value()).collect();
+            if v.len() != 2 || v[0] != t {
+                return Err(viol(format!("const:{sch}:rns.base_t_gamma.base:wrong"), format!("[t, gamma] for {}", ctx()), format!("{v:?}")));
+            }
+            check_rnsbase(sch, "base_t_gamma", tg, &v, &ctx)?;
+            Some(v[1])
+        }
+        None => {
+            if lp.scheme != 2 {
+                return Err(viol(format!("const:{sch}:rns.base_t_gamma:missing"), format!("a base {{t, gamma}} for {}", ctx()), "None"));
+            }
+            None
+        }
+    };
+    // auxiliary moduli: distinct 61-bit primes = 1 mod 2N (so coprime to every coefficient modulus, NTT-friendly); gamma coprime to t
+    let mut aux = bsk.clone();
+    aux.extend(gamma);
+    for (i, &x) in aux.iter().enumerate() {
+        let ok = bits(x) == 61 && x % two_n == 1 && isp(x) && !aux[..i].contains(&x) && !lp.q.contains(&x) && (lp.scheme == 2 || gcd(x, t) == 1);
+        if !ok {
+            return Err(viol(format!("const:{sch}:rns.aux-moduli:inadmissible"), format!("B, m_sk, gamma: distinct 61-bit primes = 1 mod {two_n}, coprime to q and t, for {}", ctx()), format!("B + m_sk {bsk:?} gamma {gamma:?}")));
+        }
+    }
+    check_rnsbase(sch, "base_B", tool.base_B(), &b, &ctx)?;
+    check_rnsbase(sch, "base_Bsk", tool.base_Bsk(), &bsk, &ctx)?;
+    let mut bsk_mt = bsk.clone();
+    bsk_mt.push(1u64 << 32);
+    check_rnsbase(sch, "base_Bsk_m_tilde", tool.base_Bsk_m_tilde(), &bsk_mt, &ctx)?;
+    // size of B: 2^32 * t * q < prod(B) * m_sk (the bound the BFV multiplication is built on; t counts as 1 when there is none)
+    let prod_b = BigU::product(&b);
+    let need = total.mul_u64(t.max(1)).shl(32);
+    if need >= prod_b.mul_u64(m_sk) {
+        return Err(viol(format!("const:{sch}:rns.base_B:too-small"), format!("2^32 * t * q < prod(B) * m_sk for {}", ctx()), format!("B {b:?} m_sk {m_sk}")));
+    }
+    // --- tables of the base Bsk
+    let tabs = tool.base_Bsk_ntt_tables();
+    want!("rns.base_Bsk_ntt_tables.len", tabs.len(), bsk.len());
+    for (i, tb) in tabs.iter().enumerate() {
+        let m = bsk[i];
+        want!("rns.bsk_ntt.coeff_count", tb.coeff_count(), n);
+        want!("rns.bsk_ntt.root(minimal)", Some(tb.root()), ref_min_root(n, m));
+        let inv = tb.inv_degree_modulo();
+        want!("rns.bsk_ntt.inv_degree", op_pair(&inv), exp_op(inv_mod_u64(n as u64 % m, m).unwrap_or(0), m));
+        check_table_entries(sch, "rns.bsk_ntt", tb, n, m, &ctx)?;
+    }
+    // --- scalar constants
+    let inv = |x: u64, m: u64| inv_mod_u64(x % m, m).unwrap_or(0);
+    let e: Vec<u64> = lp.q.iter().map(|&qi| prod_b.rem_u64(qi)).collect();
+    want!("rns.prod_B_mod_q", tool.prod_B_mod_q().clone(), e);
+    let e: Vec<(u64, u64)> = bsk.iter().map(|&m| exp_op(inv(total.rem_u64(m), m), m)).collect();
+    want!("rns.inv_prod_q_mod_Bsk", tool.inv_prod_q_mod_Bsk().iter().map(op_pair).collect::<Vec<_>>(), e);
+    let mt = 1u64 << 32;
+    let qi = inv(total.rem_u64(mt), mt);
+    want!("rns.neg_inv_prod_q_mod_m_tilde", op_pair(tool.neg_inv_prod_q_mod_m_tilde()), exp_op((mt - qi) % mt, mt));
+    want!("rns.inv_prod_B_mod_m_sk", op_pair(tool.inv_prod_B_mod_m_sk()), exp_op(inv(prod_b.rem_u64(m_sk), m_sk), m_sk));
+    let q_last = lp.q[k - 1];
+    let e: Vec<(u64, u64)> = lp.q[..k - 1].iter().map(|&qi| exp_op(inv(q_last, qi), qi)).collect();
+    want!("rns.inv_q_last_mod_q", tool.inv_q_last_mod_q().iter().map(op_pair).collect::<Vec<_>>(), e);
+    if lp.scheme == 2 {
+        want!("rns.inv_gamma_mod_t", tool.inv_gamma_mod_t().as_ref().map(op_pair), None::<(u64, u64)>);
+    } else {
+        let g = gamma.unwrap();
+        want!("rns.inv_gamma_mod_t", tool.inv_gamma_mod_t().as_ref().map(op_pair), Some(exp_op(inv(g, t), t)));
+        want!("rns.inv_q_last_mod_t", tool.inv_q_last_mod_t(), inv(q_last, t));
+    }
+    Ok(h64(&(&bsk, gamma)))
+}
+
 /// Walks the chain from the key level and checks its structure (valid for every input, accepted or not).
 fn observe_ctx(p: &P, sec: u16, special: bool, ctx: &HeContext) -> Result<CtxObs, Viol> {
     let s = |x: &str| x.to_string();
@@ -559,7 +746,12 @@ fn observe_ctx(p: &P, sec: u16, special: bool, ctx: &HeContext) -> Result<CtxObs
                     s("parameters_set() = true"),
                 ));
             }
-            check_level(&lp, sec, cd)?
+            let (fp, roots, qual) = check_level(&lp, sec, cd)?;
+            if EXT.with(|e| e.get()) {
+                (h64(&(fp, check_level_ext(&lp, cd)?)), roots, qual)
+            } else {
+                (fp, roots, qual)
+            }
         } else {
             (h64(&(cd.parms_id(), &err)), vec![], 0)
         };
@@ -570,6 +762,15 @@ fn observe_ctx(p: &P, sec: u16, special: bool, ctx: &HeContext) -> Result<CtxObs
     }
     if !Arc::ptr_eq(&last, cds.last().unwrap()) {
         return Err(viol("chain:last-level", "last_context_data() is the end of the list", p.label()));
+    }
+    if EXT.with(|e| e.get()) {
+        for i in 0..levels.len() {
+            for j in 0..i {
+                if levels[i].id == levels[j].id {
+                    return Err(viol("ids:collision-in-chain", format!("levels {j} and {i} of {} ({} and {} moduli) have different ids", p.label(), levels[j].q.len(), levels[i].q.len()), format!("both {:x?}", levels[i].id)));
+                }
+            }
+        }
     }
     want_eq("chain:key-id", *ctx.key_parms_id(), levels[0].id, p)?;
     want_eq("chain:first-id", *ctx.first_parms_id(), levels[first_idx].id, p)?;
@@ -1057,6 +1258,417 @@ fn long_cases(cfg: &RunCfg) -> Vec<VCase> {
 }
 
 // ---------------------------------------------------------------------------------------------
+// production-size sections: many primes at degrees 4..512 (chain_many), degrees 1024..131072 (chain_big), many generated primes (create_many)
+// ---------------------------------------------------------------------------------------------
+
+const MANY_DEGREES: [usize; 8] = [4, 8, 16, 32, 64, 128, 256, 512];
+const BIG_DEGREES: [usize; 8] = [1024, 2048, 4096, 8192, 16384, 32768, 65536, 131072];
+/// chain lengths that sit on a boundary (1 / 2 words, 8 / 9 and 16 / 17 primes or words, the longest)
+const EDGE_LENS: [usize; 10] = [1, 2, 7, 8, 9, 15, 16, 17, 18, 30];
+const MAX_LEN: usize = 30;
+
+/// the `count` smallest primes = 1 mod 2n that are not in `skip`
+fn smallest_ntt_primes(n: usize, count: usize, skip: &[u64]) -> Vec<u64> {
+    let f = 2 * n as u64;
+    let mut v = vec![];
+    let mut x = f + 1;
+    while v.len() < count {
+        if is_prime_u64(x) && !skip.contains(&x) {
+            v.push(x);
+        }
+        x += f;
+    }
+    v
+}
+
+/// distinct primes = 1 mod 2n of the given bit sizes, in the order given: the j-th occurrence of a size takes the j-th largest
+/// prime of that size that is not in `skip`. None if some size has too few primes.
+fn sized_chain(n: usize, sizes: &[usize], skip: &[u64]) -> Option<Vec<u64>> {
+    let mut pools: HashMap<usize, Vec<u64>> = HashMap::new();
+    let mut out = vec![];
+    for &b in sizes {
+        if !(2..=60).contains(&b) {
+            return None;
+        }
+        let pool = pools.entry(b).or_insert_with(|| {
+            let cnt = sizes.iter().filter(|&&x| x == b).count();
+            let mut v = primes_1_mod(2 * n as u64, b, cnt + skip.len());
+            v.retain(|x| !skip.contains(x));
+            v.reverse(); // pop() takes the largest
+            v
+        });
+        out.push(pool.pop()?);
+    }
+    Some(out)
+}
+
+const MIXED_SMALL: [usize; 10] = [60, 20, 47, 33, 59, 25, 41, 54, 30, 38];
+const MIXED_BIG: [usize; 10] = [60, 30, 47, 33, 59, 36, 41, 54, 31, 38];
+
+/// The prime lists of one degree: (family, 30 distinct primes = 1 mod 2N, plain moduli for BFV / BGV).
+///  * `max60`  the 2nd..31st largest 60-bit primes, descending (the largest one is a plain modulus): products cross one word per prime
+///  * `min`    the 30 smallest primes, ascending (degrees below 1024 only): many moduli, few words
+///  * `mixed`  sizes 60,20,47,33,59,25,41,54,30,38 (large degrees: 60,30,47,33,59,36,41,54,31,38) three times over: irregular word boundaries
+/// Plain moduli: 3 (no batching), a small prime = 1 mod 2N outside every list (batching, fast lift), the largest 60-bit prime
+/// = 1 mod 2N (batching, larger than every coefficient modulus: multi-word increments, short chains).
+fn prime_families(n: usize) -> Vec<(&'static str, Vec<u64>, Vec<u64>)> {
+    let pool60 = primes_1_mod(2 * n as u64, 60, MAX_LEN + 1);
+    assert_eq!(pool60.len(), MAX_LEN + 1);
+    let t_big = pool60[0];
+    let small = smallest_ntt_primes(n, MAX_LEN + 1, &[]);
+    let t_mid = small[MAX_LEN];
+    let ts = vec![3, t_mid, t_big];
+    let mut out = vec![("max60", pool60[1..].to_vec(), ts.clone())];
+    if n < 1024 {
+        out.push(("min", small[..MAX_LEN].to_vec(), ts.clone()));
+    }
+    let pat: Vec<usize> = (0..MAX_LEN).map(|i| if n < 1024 { MIXED_SMALL[i % 10] } else { MIXED_BIG[i % 10] }).collect();
+    if let Some(l) = sized_chain(n, &pat, &[t_big, t_mid]) {
+        out.push(("mixed", l, ts));
+    }
+    out
+}
+
+/// A chain of `k` primes = 1 mod 2N whose product has exactly `std_max_bits(n, 128)` bits (sizes as equal as possible, ascending,
+/// so that the last prime is a largest one), and the same chain with the last prime replaced so that the product has more bits.
+fn tc128_chain(n: usize, k: usize, skip: &[u64]) -> Option<(Vec<u64>, Vec<u64>)> {
+    let max = std_max_bits(n, 128);
+    if max == 0 || k == 0 || max / k < 2 {
+        return None;
+    }
+    let mut sizes: Vec<usize> = (0..k).map(|i| max / k + usize::from(i >= k - max % k)).collect();
+    for _ in 0..4 * k + 8 {
+        let chain = sized_chain(n, &sizes, skip)?;
+        let b = BigU::product(&chain).bits();
+        if b == max {
+            // one bit too many: a last prime of more bits
+            let last_bits = *sizes.last().unwrap();
+            for extra in 1..=3 {
+                if last_bits + extra > 60 {
+                    break;
+                }
+                for pr in primes_1_mod(2 * n as u64, last_bits + extra, 4) {
+                    if chain.contains(&pr) || skip.contains(&pr) {
+                        continue;
+                    }
+                    let mut over = chain.clone();
+                    *over.last_mut().unwrap() = pr;
+                    if BigU::product(&over).bits() > max {
+                        return Some((chain, over));
+                    }
+                }
+            }
+            return Some((chain.clone(), vec![]));
+        }
+        if b < max {
+            // grow the smallest size
+            let i = (0..k).min_by_key(|&i| (sizes[i], i))?;
+            if sizes[i] >= 60 {
+                return None;
+            }
+            sizes[i] += 1;
+        } else {
+            let i = (0..k).max_by_key(|&i| (sizes[i], i))?;
+            if sizes[i] <= 2 {
+                return None;
+            }
+            sizes[i] -= 1;
+        }
+        sizes.sort_unstable();
+    }
+    None
+}
+
+fn lens(all: bool) -> Vec<usize> {
+    if all {
+        (1..=MAX_LEN).collect()
+    } else {
+        EDGE_LENS.to_vec()
+    }
+}
+
+fn vcase(scheme: u8, n: usize, q: &[u64], ts: &[u64], secs: &[u16], script: usize) -> VCase {
+    VCase { scheme, n, q: q.to_vec(), ts: if scheme == 2 { vec![0] } else { ts.to_vec() }, secs: secs.to_vec(), flags: ALL_FLAGS.to_vec(), script }
+}
+
+/// chain_many: degree 4..512 x family x chain length x scheme; plain moduli, security {None, Tc128}, the four flag combinations inside
+fn many_cases(cfg: &RunCfg) -> Vec<VCase> {
+    let mut out = vec![];
+    for &n in &MANY_DEGREES {
+        if !cfg.thorough() && ![4, 8, 64, 256].contains(&n) {
+            continue;
+        }
+        for (fam, list, ts) in prime_families(n) {
+            if !cfg.thorough() && ((n != 8 && fam == "mixed") || (n == 256 && fam != "max60")) {
+                continue;
+            }
+            let ks: Vec<usize> = if cfg.thorough() {
+                lens(n <= 64 || fam == "max60")
+            } else if n == 256 {
+                vec![9, 17]
+            } else {
+                lens(n == 8 && fam != "mixed")
+            };
+            for k in ks {
+                for scheme in [1u8, 3, 2] {
+                    // quick: BGV shares every code path of this property with BFV except the scheme tag; edge lengths only
+                    if !cfg.thorough() && scheme == 3 && !(n == 8 && EDGE_LENS.contains(&k)) {
+                        continue;
+                    }
+                    let ts: Vec<u64> = if cfg.thorough() || n == 8 { ts.clone() } else { vec![ts[1], ts[2]] };
+                    out.push(vcase(scheme, n, &list[..k], &ts, &[0, 128], 1 << 18));
+                }
+            }
+        }
+    }
+    out.sort_by_key(|c| (c.q.len() * c.q.len() * c.n.max(64), c.n));
+    out
+}
+
+/// chain_big: degree 1024..131072; SecurityLevel::None with 60-bit / mixed primes, and the real security table: chains whose
+/// product has exactly the largest bit count Tc128 allows (accepted) and one with more bits (rejected)
+fn big_cases(cfg: &RunCfg) -> Vec<VCase> {
+    let mut out = vec![];
+    let script = 1 << 20;
+    for &n in &BIG_DEGREES {
+        if !cfg.thorough() && n > 8192 {
+            continue;
+        }
+        let fams = prime_families(n);
+        let (t_mid, t_big) = (fams[0].2[1], fams[0].2[2]);
+        for (fam, list, _) in &fams {
+            let ks: Vec<usize> = if cfg.thorough() {
+                match (n, *fam) {
+                    (65536 | 131072, "max60") => vec![1, 2, 9],
+                    (65536 | 131072, _) => vec![],
+                    (1024 | 4096, _) | (8192, "max60") => lens(true),
+                    (16384, "max60") => (1..=18).chain([24, 30]).collect(),
+                    (_, "max60") => vec![1, 2, 8, 9, 16, 17, 18, 30],
+                    _ => vec![9, 17],
+                }
+            } else {
+                match (n, *fam) {
+                    (1024, "max60") => vec![1, 2, 8, 9, 10, 16, 17, 18, 30],
+                    (1024, _) => vec![9, 17],
+                    (4096 | 8192, "max60") => vec![9],
+                    _ => vec![],
+                }
+            };
+            for k in ks {
+                for scheme in [1u8, 3, 2] {
+                    if scheme == 3 && (!cfg.thorough() || n >= 8192) && !(k == 9 || k == 17) {
+                        continue;
+                    }
+                    // one plain modulus per case at the large degrees (a case is one unit of parallel work)
+                    if n >= 8192 && scheme != 2 {
+                        for t in [t_mid, t_big] {
+                            if scheme == 3 && t == t_big {
+                                continue;
+                            }
+                            out.push(vcase(scheme, n, &list[..k], &[t], &[0, 128], script));
+                        }
+                    } else {
+                        out.push(vcase(scheme, n, &list[..k], &[t_mid, t_big], &[0, 128], script));
+                    }
+                }
+            }
+        }
+        // the real security table
+        for k in 1..=MAX_LEN {
+            if !cfg.thorough() && !(n == 1024 || (n == 4096 && k <= 3)) {
+                continue;
+            }
+            let Some((chain, over)) = tc128_chain(n, k, &[t_mid, t_big]) else { continue };
+            for scheme in [1u8, 3, 2] {
+                if scheme == 3 && n >= 8192 && !EDGE_LENS.contains(&k) {
+                    continue;
+                }
+                let ts: Vec<u64> = if n >= 16384 && scheme == 3 { vec![t_mid] } else { vec![t_mid, t_big] };
+                if n >= 8192 && scheme != 2 {
+                    for &t in &ts {
+                        out.push(vcase(scheme, n, &chain, &[t], &[128, 192], script));
+                    }
+                } else {
+                    out.push(vcase(scheme, n, &chain, &ts, &[128, 192], script));
+                }
+                if !over.is_empty() {
+                    out.push(VCase { flags: vec![(true, false)], ..vcase(scheme, n, &over, &[t_mid], &[128], script) });
+                }
+            }
+        }
+    }
+    // cheap cases first (the engine re-runs the first 24 sequentially), then the most expensive ones (longest first keeps the
+    // tail of the parallel run short)
+    out.sort_by_key(|c| big_cost(c));
+    let head: Vec<VCase> = out.drain(..out.len().min(24)).collect();
+    out.reverse();
+    head.into_iter().chain(out).collect()
+}
+
+fn big_cost(c: &VCase) -> u128 {
+    (c.n as u128) * (c.q.len() as u128).pow(2) * c.ts.len() as u128 * c.flags.len() as u128
+}
+
+/// bytes of root-power tables an expanded chain of the case keeps alive (two arrays of N 16-byte entries per table; level j has
+/// j tables of its own and up to j + 2 in its RNS tool)
+fn chain_bytes(c: &VCase) -> u64 {
+    let k = c.q.len() as u64;
+    32 * c.n as u64 * (k * k + 3 * k)
+}
+
+static HEAVY_IN_USE: std::sync::Mutex<u64> = std::sync::Mutex::new(0);
+static HEAVY_CV: std::sync::Condvar = std::sync::Condvar::new();
+const HEAVY_CAP: u64 = 5 << 30;
+
+/// Runs `f` while holding `bytes` of the budget for large chains (cases below 64 MB do not take part). Purely a memory throttle:
+/// what a case computes does not depend on it.
+fn throttled<T>(bytes: u64, f: impl FnOnce() -> T) -> T {
+    if bytes < 64 << 20 {
+        return f();
+    }
+    let bytes = bytes.min(HEAVY_CAP);
+    struct Release(u64);
+    impl Drop for Release {
+        fn drop(&mut self) {
+            *HEAVY_IN_USE.lock().unwrap_or_else(|e| e.into_inner()) -= self.0;
+            HEAVY_CV.notify_all();
+        }
+    }
+    let mut g = HEAVY_IN_USE.lock().unwrap_or_else(|e| e.into_inner());
+    while *g + bytes > HEAVY_CAP {
+        g = HEAVY_CV.wait(g).unwrap_or_else(|e| e.into_inner());
+    }
+    *g += bytes;
+    drop(g);
+    let _r = Release(bytes);
+    f()
+}
+
+/// `check_validate` with the extended per-level constants switched on; keys get the section's name in front.
+fn check_ext(c: &VCase, seed: u64, st: &Stats, section: &str) -> CaseOut {
+    struct Reset;
+    impl Drop for Reset {
+        fn drop(&mut self) {
+            EXT.with(|e| e.set(false));
+        }
+    }
+    let mut out = throttled(chain_bytes(c), || {
+        let _r = Reset;
+        EXT.with(|e| e.set(true));
+        check_validate(c, seed, st)
+    });
+    if let Verdict::Fail(f) = &mut out.verdict {
+        f.key = format!("{section}:{}", f.key);
+        out.outcome = h64(&f.key);
+    }
+    out
+}
+
+/// tuples of the production-size sections for the `ids` universe: every case with every prefix of its list, and for the lists of
+/// 30 primes at N = 8 and N = 1024 the neighbours that differ in ONE position (position j = 1..30 replaced by a spare prime) or in
+/// the order of the last two primes
+fn big_id_tuples(cfg: &RunCfg) -> Vec<(u8, usize, Vec<u64>, Vec<u64>)> {
+    let mut out = vec![];
+    for c in many_cases(cfg).into_iter().chain(big_cases(cfg)) {
+        for len in 1..=c.q.len() {
+            out.push((c.scheme, c.n, c.q[..len].to_vec(), c.ts.clone()));
+        }
+    }
+    for n in [8usize, 1024] {
+        for (_, list, ts) in prime_families(n) {
+            let spare = primes_1_mod(2 * n as u64, 59, MAX_LEN + 4).into_iter().find(|x| !list.contains(x)).unwrap();
+            for scheme in [1u8, 2] {
+                let ts = if scheme == 2 { vec![0] } else { vec![ts[1]] };
+                for j in 0..list.len() {
+                    let mut l = list.clone();
+                    l[j] = spare;
+                    out.push((scheme, n, l, ts.clone()));
+                }
+                for k in 2..=list.len() {
+                    let mut l = list[..k].to_vec();
+                    l.swap(k - 1, k - 2);
+                    out.push((scheme, n, l, ts.clone()));
+                }
+            }
+        }
+    }
+    out
+}
+
+#[derive(Serialize, Deserialize, Clone, Debug)]
+pub struct MCase {
+    pub n: usize,
+    /// any order
+    pub sizes: Vec<usize>,
+}
+
+/// `CoeffModulus::create(N, sizes)` with many primes per size: distinct primes of exactly the sizes, = 1 mod 2N, or a refusal
+/// when some size does not have that many primes; the identical call under other draws returns the same list.
+fn check_create_many(c: &MCase, seed: u64) -> CaseOut {
+    let tag = h64(&(c.n, &c.sizes, "many"));
+    let mut distinct: Vec<usize> = c.sizes.clone();
+    distinct.sort_unstable();
+    distinct.dedup();
+    let satisfiable = distinct.iter().all(|&b| {
+        let m = c.sizes.iter().filter(|&&x| x == b).count();
+        avail(c.n, b, m).len() >= m
+    });
+    let call = |ctr: u64| {
+        set_nt_draws(Some(stream(seed, tag, ctr, 4096)));
+        let (n, sizes) = (c.n, c.sizes.clone());
+        let r = guard(move || CoeffModulus::create(n, sizes));
+        set_nt_draws(None);
+        r
+    };
+    let first = call(0);
+    let class = match judge_created(c.n, &c.sizes, &first, satisfiable) {
+        Ok(h) => h,
+        Err((k, e, o)) => return CaseOut::fail(k.replacen("create:", "create_many:", 1), e, o),
+    };
+    let vals = |r: &Result<Vec<Modulus>, String>| r.as_ref().ok().map(|v| v.iter().map(|m| m.value()).collect::<Vec<_>>());
+    let again = call(1);
+    if vals(&again) != vals(&first) {
+        return CaseOut::fail("create_many:nondeterministic", format!("identical calls CoeffModulus::create({}, {:?}) agree: {:?}", c.n, c.sizes, vals(&first)), format!("{:?}", vals(&again)));
+    }
+    CaseOut::pass(first.is_ok(), h64(&(class, distinct.len().min(3), c.sizes.len() > 8, c.sizes.len() > 16)), 2)
+}
+
+fn create_many_cases(cfg: &RunCfg) -> Vec<MCase> {
+    let sizes: Vec<usize> = if cfg.thorough() { (2..=60).collect() } else { vec![2, 5, 8, 13, 17, 18, 20, 25, 30, 31, 32, 33, 45, 59, 60] };
+    let counts: Vec<usize> = if cfg.thorough() { (5..=MAX_LEN).collect() } else { vec![7, 8, 9, 15, 16, 17, 18, 30] };
+    let mut mixed: Vec<Vec<usize>> = vec![];
+    // three sizes, nine primes each, interleaved
+    let five = [20usize, 30, 40, 50, 60];
+    for a in 0..5 {
+        for b in a + 1..5 {
+            for c in b + 1..5 {
+                if cfg.thorough() || (a + b + c) % 3 == 0 {
+                    mixed.push((0..27).map(|i| [five[a], five[b], five[c]][i % 3]).collect());
+                }
+            }
+        }
+    }
+    mixed.push((31..=60).collect()); // 30 sizes, one prime each
+    mixed.push((0..30).map(|i| if i < 17 { 60 } else { 59 }).collect());
+    mixed.push((0..30).map(|i| if i % 2 == 0 { 30 } else { 60 }).collect());
+    mixed.push((0..30).map(|i| 60 - (i % 10)).rev().collect()); // ten sizes, three primes each
+    let mut out = vec![];
+    for &m in &counts {
+        for &b in &sizes {
+            for k in 1..=15 {
+                out.push(MCase { n: 1 << k, sizes: vec![b; m] });
+            }
+        }
+    }
+    for s in mixed {
+        for k in 1..=15 {
+            out.push(MCase { n: 1 << k, sizes: s.clone() });
+        }
+    }
+    out
+}
+
+// ---------------------------------------------------------------------------------------------
 // ids: pairwise distinct identifiers over the whole universe
 // ---------------------------------------------------------------------------------------------
 
@@ -1077,7 +1689,7 @@ fn id_universe(cfg: &RunCfg) -> Box<dyn Iterator<Item = (u8, usize, Vec<u64>, Ve
             rest.push((c.scheme, c.n, c.q[..len].to_vec(), c.ts.clone()));
         }
     }
-    Box::new(small.chain(rest))
+    Box::new(small.chain(rest).chain(big_id_tuples(cfg)))
 }
 
 fn id_of(p: &P) -> Option<ParmsID> {
@@ -1223,7 +1835,7 @@ impl AnySection for IdsSection {
             states: distinct_tuples,
             transitions: computed,
             exhaustive: true,
-            bound: "every (scheme, degree, coefficient list, plain modulus) of the validate sections incl. all chain levels: ids pairwise distinct".into(),
+            bound: "every (scheme, degree, coefficient list, plain modulus) of the validate and chain_many / chain_big sections incl. all chain levels (chains of 1..30 primes), + for the 30-prime lists at N = 8 and N = 1024 every list with ONE position 1..30 replaced and every prefix with its last two primes swapped: ids pairwise distinct".into(),
             wall_s: t0.elapsed().as_secs_f64(),
             extra: json!({"refused_by_builder": refused.load(Ordering::Relaxed)}),
         });
@@ -1839,6 +2451,20 @@ pub fn sections(cfg: &RunCfg) -> Vec<Box<dyn AnySection>> {
         .deadline(Duration::from_secs(60)),
     );
 
+    v.push(
+        E1::new(
+            "create_many",
+            if cfg.thorough() {
+                "CoeffModulus::create(N, sizes) with MANY primes: N = 2..2^15 x every size 2..60 x every count 5..30 of that one size; N x mixed lists (every 3 of {20,30,40,50,60} bits 9 times each interleaved; 31..60 bits once each; 17 x 60 + 13 x 59; 30/60 alternating; 51..60 three times each); every call twice under different draws"
+            } else {
+                "CoeffModulus::create(N, sizes) with MANY primes: N = 2..2^15 x size in {2,5,8,13,17,18,20,25,30,31,32,33,45,59,60} x count in {7,8,9,15,16,17,18,30} of that one size; N x mixed lists (4 triples of {20,30,40,50,60} bits 9 times each interleaved; 31..60 bits once each; 17 x 60 + 13 x 59; 30/60 alternating; 51..60 three times each); every call twice under different draws"
+            },
+            create_many_cases(cfg).into_iter(),
+            move |c: &MCase| check_create_many(c, seed),
+        )
+        .deadline(Duration::from_secs(60)),
+    );
+
     let ovf = Arc::new(AtomicU64::new(0));
     let (o1, o2) = (ovf.clone(), ovf.clone());
     v.push(Box::new(Noted {
@@ -1936,6 +2562,57 @@ pub fn sections(cfg: &RunCfg) -> Vec<Box<dyn AnySection>> {
         )
         .deadline(Duration::from_secs(180)),
         note: Box::new(move |rep| s2.note(rep, "validate_long")),
+    }));
+
+    let st = Arc::new(Stats::default());
+    let (s1, s2) = (st.clone(), st.clone());
+    v.push(Box::new(Noted {
+        inner: E1::new(
+            "chain_many",
+            if cfg.thorough() {
+                "MANY primes at small degrees: N in {4,8,16,32,64} x family {2nd..31st largest 60-bit primes; 30 smallest primes; sizes 60,20,47,33,59,25,41,54,30,38 thrice} x EVERY chain length 1..30, N in {128,256,512} x 60-bit x EVERY length 1..30 and x {smallest; mixed} x lengths 1,2,7,8,9,15,16,17,18,30; x {BFV,BGV,CKKS} x plain modulus in {3, 31st smallest prime = 1 mod 2N, largest 60-bit prime = 1 mod 2N} x security {None,128} x expand x special-prime; every level: chain structure, all constants incl. RNS tool bases, ids"
+            } else {
+                "MANY primes at small degrees: N = 8 x family {2nd..31st largest 60-bit primes; 30 smallest primes} x EVERY chain length 1..30 (mixed sizes: lengths 1,2,7,8,9,15,16,17,18,30) x {BFV,CKKS} (BGV: lengths 1,2,7,8,9,15,16,17,18,30) x 3 plain moduli; N in {4,64} x {60-bit; smallest} x lengths 1,2,7,8,9,15,16,17,18,30, N = 256 x 60-bit x lengths 9,17; x {BFV,CKKS} x 2 plain moduli; security {None,128} x expand x special-prime; every level: chain structure, all constants incl. RNS tool bases, ids"
+            },
+            many_cases(cfg).into_iter(),
+            move |c: &VCase| check_ext(c, seed, &s1, "chain_many"),
+        )
+        .batch(2)
+        .deadline(Duration::from_secs(180)),
+        note: Box::new(move |rep| s2.note(rep, "chain_many")),
+    }));
+
+    let st = Arc::new(Stats::default());
+    let (s1, s2) = (st.clone(), st.clone());
+    v.push(Box::new(Noted {
+        inner: E1::new(
+            "chain_big",
+            if cfg.thorough() {
+                "LARGE degrees: N in {1024,4096}: 60-bit and mixed-size primes x EVERY chain length 1..30; N = 8192: 60-bit x EVERY length 1..30; N = 16384: 60-bit x lengths 1..18,24,30; N in {2048,32768}: 60-bit x lengths 1,2,8,9,16,17,18,30; N in {2048,8192,16384,32768}: mixed sizes x lengths 9,17; N in {65536,131072}: 60-bit x lengths 1,2,9; x {BFV,CKKS} (BGV: N <= 4096 all, else lengths 9,17) x plain modulus in {smallest spare prime = 1 mod 2N, largest 60-bit prime = 1 mod 2N} x security {None,128}; + the real security table: for every N and every chain length 1..30 that admits it a chain whose product has EXACTLY the largest bit count Tc128 allows (security {128,192}) and one with a longer last prime (must be rejected); expand x special-prime; every level: chain structure, all constants incl. RNS tool bases, ids"
+            } else {
+                "LARGE degrees: N = 1024: 60-bit primes x lengths 1,2,8,9,10,16,17,18,30, mixed sizes x lengths 9,17; N in {4096,8192}: 60-bit x length 9; x {BFV,CKKS} (BGV: lengths 9,17) x plain modulus in {smallest spare prime = 1 mod 2N, largest 60-bit prime} x security {None,128}; + chains with EXACTLY the largest bit count Tc128 allows and one bit more at N = 1024 and (lengths <= 3) N = 4096; expand x special-prime; every level: chain structure, all constants incl. RNS tool bases, ids"
+            },
+            big_cases(cfg).into_iter(),
+            move |c: &VCase| check_ext(c, seed, &s1, "chain_big"),
+        )
+        .batch(1)
+        .deadline(Duration::from_secs(900)),
+        note: {
+            let cfg = cfg.clone();
+            Box::new(move |rep| {
+                s2.note(rep, "chain_big");
+                let cases = big_cases(&cfg);
+                let mut per_n = vec![];
+                for &n in &BIG_DEGREES {
+                    let exact: Vec<usize> = cases.iter().filter(|c| c.n == n && c.scheme == 2 && c.secs == [128, 192]).map(|c| c.q.len()).collect();
+                    let over = cases.iter().filter(|c| c.n == n && c.scheme == 2 && c.secs == [128]).count();
+                    if let (Some(lo), Some(hi)) = (exact.iter().min(), exact.iter().max()) {
+                        per_n.push(format!("N={n}: {} bits, {} chain lengths {lo}..{hi} ({over} with a longer last prime)", std_max_bits(n, 128), exact.len()));
+                    }
+                }
+                rep.observe(format!("chain_big: chains whose product has exactly the largest Tc128 bit count: {}", per_n.join("; ")));
+            })
+        },
     }));
 
     v.push(Box::new(IdsSection { cfg: cfg.clone() }));
